@@ -907,6 +907,45 @@ func ruleSEncOrder(c *Ctx) {
 		for _, chk := range []string{"checkHashTypeEncoding", "checkSignatureEncoding", "checkPubKeyEncoding"} {
 			cs := calls[chk]
 			ok := len(cs) == 1 && propagated(cs[0])
+			if !ok && chk == "checkPubKeyEncoding" && len(cs) > 1 {
+				// the check placed in several arms (first attempt / retried signature): each call hands its error
+				// back, and no way from the function's entry or from the head of a loop around the verification
+				// reaches the verification without passing one of them
+				all := true
+				avoid := map[*ssa.BasicBlock]bool{}
+				for _, cl := range cs {
+					all = all && propagated(cl)
+					avoid[cl.Block()] = true
+				}
+				starts := []*ssa.BasicBlock{fn.Blocks[0]}
+				for _, h := range dominatingLoopHeaders(vf.Block()) {
+					starts = append(starts, h)
+				}
+				for _, st := range starts {
+					seen := map[*ssa.BasicBlock]bool{}
+					var walk func(b *ssa.BasicBlock) bool
+					walk = func(b *ssa.BasicBlock) bool {
+						for _, sc := range b.Succs {
+							if avoid[sc] || seen[sc] {
+								continue
+							}
+							if sc == vf.Block() {
+								return true
+							}
+							seen[sc] = true
+							if walk(sc) {
+								return true
+							}
+						}
+						return false
+					}
+					if walk(st) {
+						all = false
+					}
+				}
+				c.Check(all, "S-enc", name+"/"+chk, fn.Pos(), chk+" runs on every way to the verification and its error is returned", name+" can verify a signature without "+chk+" having run with its error returned (strict-encoding failures must be hard errors)")
+				continue
+			}
 			if ok && name == "opcodeCheckSig" {
 				ok = cs[0].Block().Dominates(vf.Block())
 			}
